@@ -181,7 +181,7 @@ def render_eq(eq: Eq, lay: Layout = PLAIN) -> str:
         rhs = render(eq.rhs, lay)
     s = f'{lhs}{lay.eq_space}={lay.eq_space}{rhs}'
     if lay.comment:
-        s += '  # ' + 'comment = {x} <y> [1]'
+        s += '  # ' + 'note 1) comment = {x} <y> [1] (see'
     return s
 
 
@@ -191,7 +191,7 @@ def render_script(eqs: Sequence[Eq], lay: Layout = PLAIN) -> str:
         if lay.blank_lines and i:
             lines.append('')
         if lay.comment and i == 0:
-            lines.append('# leading comment line')
+            lines.append('# leading comment line (1 of 2')
         lines.append(render_eq(q, lay))
     return '\n'.join(lines)
 
